@@ -4,6 +4,7 @@ import (
 	"bytes"
 	"fmt"
 	"net"
+	"os"
 	"strings"
 	"time"
 
@@ -679,9 +680,10 @@ func otherRaw(p *radius.Packet, d *hdesc) string {
 
 func init() {
 	props["C12"] = func(c *Ctx) {
-		c.Res.Rule = "every attribute of the 32 shipped helper packages through the gendriver registry (closures generated from the working tree's generated.go files), descriptor taken from the dictionary line: (a) random sequences of <= 6 Add/Set/Del/Lookup/Gets calls on random prior packet contents with values over the full Go type (tags 0..255, size boundaries, wrong address families, out-of-range times, 24-bit boundary for tagged integers), crypto/rand scripted so that salts are known, compared step by step with the Coq helper semantics; (b) the laws of the statement checked directly (set/get, set/gets singleton, add appends, del removes all, survives Encode->Parse, non-interference, refusal leaves the packet unchanged, stored obfuscated, VALUE constants and String()). non-trivial = sequence with at least one successful Set or Add"
+		c.Res.Rule = "every attribute of the 32 shipped helper packages through the gendriver registry (closures generated from the working tree's generated.go files), descriptor taken from the dictionary line: (a) random sequences of <= 6 Add/Set/Del/Lookup/Gets calls on random prior packet contents with values over the full Go type (tags 0..255, size boundaries, wrong address families, out-of-range times, 24-bit boundary for tagged integers), crypto/rand scripted so that salts are known, compared step by step with the Coq helper semantics; (b) the same on helpers freshly generated by the real Generate from random accepted dictionaries (every kind x flag combination, top-level and vendor), compiled with their registry into a second-stage binary; (c) the laws of the statement checked directly (set/get, set/gets singleton, add appends, del removes all, survives Encode->Parse, non-interference, refusal leaves the packet unchanged, stored obfuscated, VALUE constants and String()). non-trivial = sequence with at least one successful Set or Add"
 		r := c.Rng.Fork()
-		if len(registry) < 300 {
+		stage2 := os.Getenv("VERIF_SYNTH_STAGE2") != ""
+		if len(registry) < 300 && !stage2 {
 			c.Fail("model", "registry", "registry", "", fmt.Sprintf("only %d attributes found in the generated packages", len(registry)), ">= 300", "")
 		}
 		c.Res.Extra = map[string]interface{}{"attributes": len(registry), "helper_functions": registryFuncs}
@@ -749,6 +751,12 @@ func init() {
 			}
 		}
 		c.Flush()
+		if stage2 {
+			return
+		}
+		// helpers freshly generated from synthetic dictionaries, compiled into a second-stage binary
+		runSynthetic(c, r, c.N(3, 16), "C12")
+		c.RequireTags("synthetic-stage", "synth:law-set")
 		c.RequireTags("bytes", "bytes+tag", "bytes+enc1", "bytes+tag+enc2", "int", "int+tag", "ip4", "ip6", "ifid", "prefix", "date", "concat", "bytes+size", "bytes+vendor", "int+vendor", "law-set", "law-refused", "value-constants")
 	}
 }
